@@ -190,8 +190,18 @@ def r2(ctx):
                           ctx.construct(m, text=f"output {s!r}"),
                           f"output {s!r} is registered for this materializer but falls into `{stmt_text(bad[0], 90) if bad else ''}`")
     prep = P.func(f"{MAT}._prepare_model_specs").locals_named("prepare_model_spec")
-    t = norm(prep.node)
-    ok = "overrides['output'] = self.REGISTER_OUTPUTS[0]" in t and "elif model_spec.output not in self.REGISTER_OUTPUTS:" in t
+    try:
+        pouts = sym.outcomes(prep.node)
+    except sym.Unmodelled as e:
+        raise AnalysisError(f"C05.R2: prepare_model_spec cannot be summarised: {e}")
+    A, B = "model_spec.output is None", "model_spec.output in self.REGISTER_OUTPUTS"
+    dflt = sym.eval_under(pouts, {A: True}, kinds=("return", "fall"))
+    bad_ = sym.eval_under(pouts, {A: False, B: False}, kinds=("return", "fall"))
+    good = sym.eval_under(pouts, {A: False, B: True}, kinds=("return", "fall"))
+    sets_default = lambda effs, v: any(sym.pm("overrides['output'] = self.REGISTER_OUTPUTS[0]", e) is not None for e in effs) or \
+        (v is not None and "output=self.REGISTER_OUTPUTS[0]" in norm(v)) or (v is not None and "'output': self.REGISTER_OUTPUTS[0]" in norm(v))
+    ok = bool(dflt) and all(sets_default(effs, v) for _k, v, effs in dflt) and not bad_ and bool(good) \
+        and not any(sets_default(effs, v) for _k, v, effs in good)
     ctx.check(ok, "C05.R2", "a spec's output is defaulted to REGISTER_OUTPUTS[0] or validated against REGISTER_OUTPUTS", prep.where,
               ctx.construct(prep, text="output defaulting"), "the working spec's output must be one of the materializer's registered outputs")
     # encode_contrasts: reaching outputs through its callers
